@@ -3,15 +3,23 @@
    ristretto255 is assumed to satisfy it).  Freshness of the blinding scalars is OS randomness: measured. *)
 From Coq Require Import ZArith NArith List.
 Import ListNotations.
-From StarV Require Import Params Bytes Strobe Ggm Ppoprf PpFacts SrvFacts.
+From Coq Require Import Znumtheory.
+From StarV Require Import Params Bytes Strobe Ggm Ppoprf EllPrime PpFacts SrvFacts.
 Open Scope Z_scope.
 
 (* unblinding an evaluation of the blinded point gives the evaluation of the unblinded point, for every
    invertible blinding scalar r and every exponent e (= inverse of the tagged key) *)
 Theorem C12_unblind : forall (G : grp), GrpLaws G -> forall (e r : Z) (h : bytes),
-  g_valid G h = true -> (sc_inv r * r) mod ell = 1 ->
+  g_valid G h = true -> r mod ell <> 0 ->
   client_unblind G (g_mul G e (g_mul G r h)) r = Ok (g_mul G e h).
-Proof. exact unblind_eval. Qed.
+Proof. intros G L e r h Hh Hr. exact (unblind_eval G L e r h Hh (sc_inv_spec r Hr)). Qed.
+
+(* the scalar field: the group order the model uses is prime (Pratt certificate), and the model's inversion
+   is the field inverse *)
+Theorem C12_ell_prime : prime ell.
+Proof. exact ell_prime. Qed.
+Theorem C12_scalar_inverse : forall a : Z, a mod ell <> 0 -> (sc_inv a * a) mod ell = 1.
+Proof. exact sc_inv_spec. Qed.
 
 (* what the server returns is exactly exponent * point with exponent = 1 / (key + PRF(tag)), whatever the
    history of the instance, as long as the tag is registered and unpunctured (C14_eval) *)
@@ -43,5 +51,4 @@ Theorem C12_finalize : forall (F : list N -> list N) (input : bytes) (md : N) (u
   client_finalize F input md u = firstn Params.pp_finalize_len (strobe_hash F (input ++ [md] ++ u) Params.lbl_pp_finalize).
 Proof. reflexivity. Qed.
 
-Example C12_premise_satisfiable : (sc_inv 123456789 * 123456789) mod ell = 1.
-Proof. vm_compute. reflexivity. Qed.
+
